@@ -413,6 +413,24 @@ fn do_op(w: &mut World, op: &Value, e: &mut Map<String, Value>) -> Result<(), St
             let c = obj!().clone();
             w.objs.insert(geti(op, "to"), c);
         }
+        "clone_from" => {
+            // Clone::clone_from onto an object that already exists: afterwards it is a snapshot of the source
+            let to = geti(op, "to");
+            if !w.objs.contains_key(&oid) || to == oid {
+                e.insert("skip".into(), json!(1));
+                return Ok(());
+            }
+            match w.objs.remove(&to) {
+                Some(mut dst) => {
+                    dst.clone_from(obj!());
+                    w.objs.insert(to, dst);
+                    w.tokens.retain(|_, (owner, _)| *owner != to);
+                }
+                None => {
+                    e.insert("skip".into(), json!(1));
+                }
+            }
+        }
         "drop" => {
             if w.objs.remove(&oid).is_none() {
                 e.insert("skip".into(), json!(1));
